@@ -5,6 +5,7 @@ CONSTANTS
   Q = 1
   MaxInstr = 0
   MaxFail = 0
+  GatedFinish = FALSE
   Eager = TRUE
   RecoverUsesStatePin = TRUE
   StatusAllListsDirect = TRUE
